@@ -220,16 +220,18 @@ def _pix_py(M, k, c):
     return int(idx[k][c]) if 0 <= k < len(idx) else -1
 
 
+# (as c09_sub, but also 0 when the sub-size map is too short for the mask: keeps the axioms below well-defined for every M, S)
+macro("c09_sub_g", ["M", "S", "y", "x"], "(0 if (M[y, x] or cnt2(M, y, x) >= S.shape[0]) else S[cnt2(M, y, x)])")
+_NAT = ("forall(0, H, lambda y: forall(0, W, lambda x: forall(0, c09_sub_g(M, S, y, x), lambda {v}:"
+        " {f}(M, S, {s}, {o}, cnt2(M, y, x), {v}) == {body}, pat={f}(M, S, {s}, {o}, cnt2(M, y, x), {v}))))")
 spec_fn("c09_suby", params=[("M", "bool[2]"), ("S", "int[1]"), ("sy", "$real"), ("oy", "$real"), ("k", "int"), ("a", "int")],
-        ret="real", let={"H": "M.shape[0]", "N": "S.shape[0]"},
-        axioms=["forall(0, N, lambda k: forall(0, S[k], lambda a: c09_suby(M, S, sy, oy, k, a)"
-                " == c09_ysub(cy(pixy(M, k), H, sy, oy), sy, a, S[k]), pat=c09_suby(M, S, sy, oy, k, a)))"],
-        py=_suby_py, doc="y of the centre of sub-row a of slim pixel k (a counted from the top)")
+        ret="real", let={"H": "M.shape[0]", "W": "M.shape[1]", "N": "S.shape[0]"},
+        axioms=[_NAT.format(f="c09_suby", s="sy", o="oy", v="a", body="c09_ysub(cy(y, H, sy, oy), sy, a, S[cnt2(M, y, x)])")],
+        py=_suby_py, doc="y of the centre of sub-row a of the slim pixel k = cnt2(M, y, x) (a counted from the top)")
 spec_fn("c09_subx", params=[("M", "bool[2]"), ("S", "int[1]"), ("sx", "$real"), ("ox", "$real"), ("k", "int"), ("b", "int")],
-        ret="real", let={"W": "M.shape[1]", "N": "S.shape[0]"},
-        axioms=["forall(0, N, lambda k: forall(0, S[k], lambda b: c09_subx(M, S, sx, ox, k, b)"
-                " == c09_xsub(cx(pixx(M, k), W, sx, ox), sx, b, S[k]), pat=c09_subx(M, S, sx, ox, k, b)))"],
-        py=_subx_py, doc="x of the centre of sub-column b of slim pixel k (b counted from the left)")
+        ret="real", let={"H": "M.shape[0]", "W": "M.shape[1]", "N": "S.shape[0]"},
+        axioms=[_NAT.format(f="c09_subx", s="sx", o="ox", v="b", body="c09_xsub(cx(x, W, sx, ox), sx, b, S[cnt2(M, y, x)])")],
+        py=_subx_py, doc="x of the centre of sub-column b of the slim pixel k = cnt2(M, y, x) (b counted from the left)")
 
 _GRID_DONE = ("forall(0, sub_index, lambda t: grid_slim[t, 0] == c09_suby(M, S, sy, oy, c09_pk(S, t), c09_pa(S, t))"
               " and grid_slim[t, 1] == c09_subx(M, S, sx, ox, c09_pk(S, t), c09_pb(S, t)))")
@@ -237,7 +239,6 @@ _grid_loops = _walk("index", "sub_index", _GRID_DONE)
 _grid_loops[3]["assert_at"] = {0: [
     "y_scaled == -cy(y, H, sy, oy)", "x_scaled == cx(x, W, sx, ox)",
     "c09_pk(S, sub_index) == index and c09_pa(S, sub_index) == y1 and c09_pb(S, sub_index) == x1",
-    "pixy(M, index) == y and pixx(M, index) == x",
     "c09_suby(M, S, sy, oy, index, y1) == c09_ysub(cy(y, H, sy, oy), sy, y1, sub)",
     "c09_subx(M, S, sx, ox, index, x1) == c09_xsub(cx(x, W, sx, ox), sx, x1, sub)",
     "-(y_scaled - y_sub_half + y1 * y_sub_step + y_sub_step / 2.0) == c09_suby(M, S, sy, oy, index, y1)",
@@ -435,6 +436,57 @@ contract(
 )
 
 
+# ----------------------------------------------------------------------------------------------- over-sampled mask
+# c09_up(s, B, y, a) = y*s + a (row / column a of the s x s block of native row / column y, 0 <= y <= B), defined by repeated
+# addition so that the quantified loop invariants stay linear and have arithmetic-free triggers
+spec_fn("c09_up", params=[("s", "$int"), ("B", "$int"), ("y", "int"), ("a", "int")], ret="int",
+        axioms=["c09_up(s, B, 0, 0) == 0",
+                "forall(0, B, lambda y: c09_up(s, B, y + 1, 0) == c09_up(s, B, y, 0) + s, pat=c09_up(s, B, y + 1, 0))",
+                "forall(0, B + 1, lambda y: forall(0, s + 1, lambda a: c09_up(s, B, y, a) == c09_up(s, B, y, 0) + a, pat=c09_up(s, B, y, a)))"],
+        lemmas=[
+            dict(name="lin", induct="n", lo=0, hi="B", stmt="c09_up(s, B, n, 0) == n * s"),
+            dict(name="closed", noinduct=True,
+                 stmt="forall(0, B + 1, lambda y: forall(0, s + 1, lambda a: c09_up(s, B, y, a) == y * s + a, pat=c09_up(s, B, y, a)))"),
+            dict(name="mono", induct="n", lo=0, hi="B",
+                 stmt="forall(0, n, lambda y1: implies(s >= 0, c09_up(s, B, y1, 0) + s <= c09_up(s, B, n, 0)),"
+                      " pat=((c09_up(s, B, y1, 0), c09_up(s, B, n, 0)),))"),
+        ],
+        py=lambda s, B, y, a: int(y) * int(s) + int(a), doc="over-sampled row / column index of sub-row / sub-column a of native row / column y")
+
+_OM = "oversample_mask[c09_up(s, B, {y}, a), c09_up(s, B, {x}, b)]"
+
+
+def _om(ylo, yhi, xlo, xhi, val, y="yy", x="xx"):
+    q = "forall(0, s, lambda a: forall(0, s, lambda b: " + _OM.format(y=y, x=x) + " == " + val.format(y=y, x=x) + "))"
+    if xlo is not None:
+        q = "forall(%s, %s, lambda %s: %s)" % (xlo, xhi, x, q)
+    if ylo is not None:
+        q = "forall(%s, %s, lambda %s: %s)" % (ylo, yhi, y, q)
+    return q
+
+
+contract(
+    U + "oversample_mask_2d_from", props=["C09"],
+    types={"mask": "bool[2]", "sub_size": "int"}, returns="bool[2]",
+    let={"H": "mask.shape[0]", "W": "mask.shape[1]", "s": "sub_size", "B": "mask.shape[0] + mask.shape[1]"},
+    requires=["s >= 0"],
+    ensures=["result.shape[0] == H * s", "result.shape[1] == W * s",
+             # every mask value is expanded to an s x s block: entry (y*s + a, x*s + b) of the result is mask[y, x]
+             "forall(0, H, lambda y: forall(0, W, lambda x: forall(0, s, lambda a: forall(0, s, lambda b:"
+             " result[c09_up(s, B, y, a), c09_up(s, B, x, b)] == mask[y, x]"
+             " and c09_up(s, B, y, a) == y * s + a and c09_up(s, B, x, b) == x * s + b))))"],
+    loops={
+        0: {"inv": [_om("0", "y", "0", "W", "mask[{y}, {x}]"), _om("y", "H", "0", "W", "True")]},
+        1: {"inv": [_om("0", "y", "0", "W", "mask[{y}, {x}]"), _om("y + 1", "H", "0", "W", "True"),
+                    _om(None, None, "0", "x", "mask[{y}, {x}]", y="y"), _om(None, None, "x", "W", "True", y="y")],
+            "assert_at": {0: ["y * sub_size == c09_up(s, B, y, 0) and (y + 1) * sub_size == c09_up(s, B, y + 1, 0)",
+                              "x * sub_size == c09_up(s, B, x, 0) and (x + 1) * sub_size == c09_up(s, B, x + 1, 0)",
+                              "c09_up(s, B, y + 1, 0) <= c09_up(s, B, H, 0) and c09_up(s, B, x + 1, 0) <= c09_up(s, B, W, 0)",
+                              "H * s == c09_up(s, B, H, 0) and W * s == c09_up(s, B, W, 0)"]}},
+    },
+    sentence={"forall": "the over-sampled mask expands every mask value to a sub_size x sub_size block"},
+)
+
 # ----------------------------------------------------------------------------------------------- radial bins
 def _bin_spec(arr, i):
     """entry i holds the sub size of the FIRST radial bin whose edge exceeds its radius, else the last sub size"""
@@ -596,9 +648,22 @@ def _g_radial(rng, tier):
         m = rng.randint(0, 4)
         L = m + rng.randint(0 if m else 1, 2)
         rl = sorted(rng.uniform(0.1, 3.0) for _ in range(m)) if rng.random() < 0.7 else [rng.uniform(0.1, 3.0) for _ in range(m)]
-        yield {"radial_grid": np.array([rng.uniform(0, 3.5) for _ in range(rng.randint(0, 6))]),
+        # radii include exact bin edges (the comparison is strict)
+        yield {"radial_grid": np.array([(rng.choice(rl) if rl and rng.random() < 0.3 else rng.uniform(0, 3.5)) for _ in range(rng.randint(0, 6))]),
                "sub_size_list": np.array([rng.choice([1, 2, 4, 8, 16, 32]) for _ in range(L)], dtype=int),
                "radial_list": np.array(rl, dtype=float)}
 
 
 CONTRACTS[U + "sub_size_radial_bins_from"].gen = _g_radial
+
+
+def _g_omask(rng, tier):
+    for m in gens.all_masks(gens.budget(tier, 6, 9)):
+        for sub in (0, 1, 2, 3):
+            yield {"mask": m, "sub_size": sub}
+    for _ in range(gens.budget(tier, 30, 300)):
+        yield {"mask": gens.random_mask(rng, 5, 5), "sub_size": rng.randint(1, 4)}
+
+
+CONTRACTS[U + "oversample_mask_2d_from"].gen = _g_omask
+CONTRACTS[U + "oversample_mask_2d_from"].nontrivial = lambda mask, sub_size: bool(0 < mask.sum() < mask.size and sub_size > 1)
